@@ -294,7 +294,7 @@ def build_once(w, tname, order, jobs, perm, statemode, threshold_direct, upload=
         runs = 1
         if statemode == "warm":
             runs = 2
-        if statemode == "touched":
+        if statemode in ("touched", "rewritten-near"):
             runs = 2
         obj = None
         if statemode.startswith("partial"):
@@ -309,6 +309,20 @@ def build_once(w, tname, order, jobs, perm, statemode, threshold_direct, upload=
             if r == 1 and statemode == "touched":
                 first = sorted(tree)[0]
                 stamp(os.path.join(ws, *first.split("/")))
+            if r == 1 and statemode == "rewritten-near":
+                # the last file is rewritten in place (same size, same inode) half a microsecond later
+                last = sorted(tree)[-1]
+                pth = os.path.join(ws, *last.split("/"))
+                old = open(pth, "rb").read()
+                if old:
+                    new = bytes((b + 1) % 256 for b in old)
+                    ns0 = os.stat(pth).st_mtime_ns
+                    with open(pth, "r+b") as fh:
+                        fh.write(new)
+                    os.utime(pth, ns=(ns0 + 500, ns0 + 500))
+                    want = dict(want)
+                    want[last] = ref.md5(new)
+                    want_oid = ref.tree_oid(want)
             _staging, meta, obj = B.build(odb, ws, LFS, "md5", checksum_jobs=jobs, **({"upload": True} if upload else {}))
             if obj.oid != want_oid:
                 viol.append(("fs-identifier-differs-from-reference",
@@ -359,7 +373,7 @@ def run_fs(case):
     order = case["order"]
     for jobs in (1, 2, 4):
         for perm in perms:
-            for sm, up in [(m, False) for m in ("none", "cold", "warm", "touched", "partial-first", "partial-last")] + \
+            for sm, up in [(m, False) for m in ("none", "cold", "warm", "touched", "rewritten-near", "partial-first", "partial-last")] + \
                     [(m, True) for m in ("none", "partial-first", "partial-last")]:
                 with World() as w:
                     viol, info = build_once(w, tname, order, jobs, perm, sm,
